@@ -54,8 +54,19 @@ class Executor:
             return []
         for l in lines:
             assert "\n" not in l
-        self.p.stdin.write("\n".join(lines) + "\nEND\n")
-        self.p.stdin.flush()
+        import threading
+
+        def feed():
+            try:
+                self.p.stdin.write("\n".join(lines) + "\nEND\n")
+                self.p.stdin.flush()
+            except Exception:
+                pass
+
+        # written from a second thread: an executor that answers while it reads would otherwise
+        # dead-lock with us once both pipes are full
+        wt = threading.Thread(target=feed)
+        wt.start()
         out = []
         while True:
             l = self.p.stdout.readline()
@@ -66,6 +77,7 @@ class Executor:
             if l == "END":
                 break
             out.append(l)
+        wt.join()
         if len(out) != len(lines):
             raise RuntimeError("%s answered %d lines for %d requests" % (self.name, len(out), len(lines)))
         return out
